@@ -53,11 +53,18 @@ impl std::fmt::Debug for TagAppender {
     }
 }
 
+/// kind 0 with the 7th case component set: appender 0 of EVERY configuration fails after having done its
+/// work (incl. a re-entrant set_config); the logger is built with a recording error handler
+static FAIL0: std::sync::atomic::AtomicBool = std::sync::atomic::AtomicBool::new(false);
+
 impl Append for TagAppender {
     fn append(&self, record: &log::Record) -> anyhow::Result<()> {
         match &self.hook {
             Some(h) => h(self.tag, self.idx, record),
             None => DELIV.with(|d| d.borrow_mut().push((self.tag, self.idx))),
+        }
+        if self.idx == 0 && FAIL0.load(Ordering::SeqCst) {
+            anyhow::bail!("{}:{}:{}", record.args(), self.tag, self.idx);
         }
         Ok(())
     }
@@ -219,7 +226,27 @@ fn run_sched(c: &[Val]) -> Val {
         })
     };
     *hook_cell.lock().unwrap() = Some(hook.clone());
-    let logger = Arc::new(log4rs::Logger::new(build_config(&cfgs[init], None, Some(hook.clone()), None)));
+    let fail0 = c.len() > 6 && c[6].n() == 1;
+    FAIL0.store(fail0, Ordering::SeqCst);
+    let logger = if fail0 {
+        // the initial logger has ITS OWN error handler (event (5 tid k tag idx)); configurations installed later
+        // through set_config report to the crate's default handler (stderr)
+        let hs = sched.clone();
+        Arc::new(log4rs::Logger::new_with_err_handler(
+            build_config(&cfgs[init], None, Some(hook.clone()), None),
+            Box::new(move |e: &anyhow::Error| {
+                let t = e.to_string();
+                let v: Vec<u128> = t.split(':').filter_map(|x| x.parse().ok()).collect();
+                if v.len() == 4 {
+                    hs.ev(vec![5, v[0], v[1], v[2], v[3]]);
+                } else {
+                    hs.ev(vec![5, 999, 999, 999, 999]);
+                }
+            }),
+        ))
+    } else {
+        Arc::new(log4rs::Logger::new(build_config(&cfgs[init], None, Some(hook.clone()), None)))
+    };
     *handle_slot.lock().unwrap() = Some(logger.verif_handle());
     let mut joins = vec![];
     for (tid, prog) in progs.into_iter().enumerate() {
@@ -281,6 +308,7 @@ fn run_sched(c: &[Val]) -> Val {
     for j in joins {
         let _ = j.join();
     }
+    FAIL0.store(false, Ordering::SeqCst);
     // break the logger -> appender -> hook -> handle cycle
     *handle_slot.lock().unwrap() = None;
     *hook_cell.lock().unwrap() = None;
